@@ -122,6 +122,20 @@ bj::object observe_t(const Input& in, const std::vector<int>& primes) {
     for (auto v : K.vertices_range()) { verts.emplace_back(static_cast<std::int64_t>(v)); if (++guard > N) break; }
   }
   o["tops"] = tops; o["verts"] = verts;
+  // get_top_dimensional_coface_of_a_cell (top-cell input) / get_vertex_of_a_cell (vertex input): "a top-dimensional cell
+  // [a vertex] that is incident to the input cell and has the same filtration value ... an arbitrary one"
+  {
+    bj::array look;
+    for (std::size_t c = 0; c < N; ++c) {
+      std::int64_t r = -1;
+      try {
+        if (in.top) { if (has_top) r = static_cast<std::int64_t>(K.get_top_dimensional_coface_of_a_cell(c)); }
+        else r = static_cast<std::int64_t>(K.get_vertex_of_a_cell(c));
+      } catch (const std::exception&) { r = -2; }
+      look.emplace_back(r);
+    }
+    o["lookup"] = look;
+  }
   o["order"] = jsz(K.filtration_simplex_range());
   {  // simplex(k) is the k-th cell of the order once the filtration is initialized
     bool ok = true;
